@@ -792,3 +792,343 @@ Proof.
       destruct (Nat.eqb_spec y c); [subst|]; now repeat split.
   - intros y. cbn. unfold upd. destruct (Nat.eqb_spec y c); [subst|]; apply H6.
 Qed.
+
+(* ---------------- neutral helpers ---------------- *)
+Lemma dq_of_kframe a b : kframe a b -> scopes b = scopes a -> dq a b.
+Proof.
+  intros K E. constructor.
+  - intros c. now rewrite E.
+  - intros t. apply (tcore_cur _ _ (kf_tasks _ _ K t)).
+  - intros t. apply (tcore_done _ _ (kf_tasks _ _ K t)).
+  - intros c H. destruct (kf_ready _ _ K) as [l [El _]]. rewrite El. apply in_or_app. now left.
+Qed.
+
+Lemma dq_fut_complete s f v : dq s (fut_complete s f v).
+Proof. apply dq_of_kframe; [apply kframe_fut_complete|apply fut_complete_scopes]. Qed.
+
+Lemma dq_task_cancel s t o : dq s (task_cancel s t o).
+Proof. apply dq_of_kframe; [apply kframe_task_cancel|apply task_cancel_scopes]. Qed.
+
+Lemma dq_task_uncancel s t : dq s (task_uncancel s t).
+Proof. apply dq_upd_task. intros k. now split. Qed.
+
+Lemma dq_same a b :
+  scopes b = scopes a -> (forall t, k_cur (tasks b t) = k_cur (tasks a t) /\ k_done (tasks b t) = k_done (tasks a t)) ->
+  (forall c, In (HDeliver c) (ready a) -> In (HDeliver c) (ready b)) -> dq a b.
+Proof. intros E Et Er. constructor; [intros c; now rewrite E|intros t; apply Et|intros t; apply Et|exact Er]. Qed.
+
+Lemma dq_call_soon s h : dq s (call_soon s h).
+Proof. apply dq_same; [reflexivity|intros t; now split|]. intros c H. cbn. apply in_or_app. now left. Qed.
+
+Lemma dq_suspend_on s t f : dq s (suspend_on s t f).
+Proof.
+  unfold suspend_on.
+  set (s2 := upd_task (upd_fut s f (fun x => mkFut (f_st x) (Some t))) t (tk_waiter (Some f))).
+  assert (K : dq s s2).
+  { apply dq_same; [reflexivity| |auto]. intros x. cbn. unfold upd. destruct (Nat.eqb_spec x t); [subst|]; now split. }
+  destruct (f_st (futs s f)); try (eapply dq_trans; [exact K|apply dq_call_soon]).
+  destruct (k_must (tasks s t)); [|exact K].
+  eapply dq_trans; [exact K|]. eapply dq_trans; [apply dq_fut_complete|]. apply dq_upd_task. intros k; now split.
+Qed.
+
+Lemma dq_park s t : dq s (park s t).
+Proof.
+  unfold park, new_fut. eapply dq_trans; [|apply dq_upd_task; intros k; now split].
+  eapply dq_trans; [|apply dq_suspend_on]. apply dq_same; [reflexivity|intros x; now split|auto].
+Qed.
+
+Lemma dq_set_running s v : dq s (set_running s v).
+Proof. apply dq_same; [reflexivity|intros x; now split|auto]. Qed.
+
+Lemma dq_ret_to_puppet s t r : dq s (fst (ret_to_puppet s t r)).
+Proof.
+  unfold ret_to_puppet. cbn [fst].
+  set (s1 := match r with RExc e => upd_task s t (tk_held (Some e)) | _ => s end).
+  assert (K1 : dq s s1) by (unfold s1; destruct r; try apply dq_refl; apply dq_upd_task; intros k; now split).
+  eapply dq_trans; [exact K1|]. eapply dq_trans; [apply dq_park|apply dq_set_running].
+Qed.
+
+Lemma dq_begin_act s t : dq s (begin_act s t).
+Proof.
+  unfold begin_act. eapply dq_trans; [|apply dq_set_running]. apply dq_upd_task; intros k; now split.
+Qed.
+
+Lemma dq_incoming s t fo : dq s (fst (incoming s t fo)).
+Proof.
+  unfold incoming. cbn [fst]. eapply dq_trans; [|apply dq_set_running]. apply dq_upd_task; intros k; now split.
+Qed.
+
+Lemma dq_fold_fut_complete v fs : forall a, dq a (fold_left (fun a f => fut_complete a f v) fs a).
+Proof.
+  induction fs as [|f fs IH]; intros a; cbn; [apply dq_refl|].
+  eapply dq_trans; [apply dq_fut_complete|apply IH].
+Qed.
+
+Lemma dq_event_set s e : dq s (event_set s e).
+Proof.
+  unfold event_set. destruct (e_set (events s e)); [apply dq_refl|].
+  eapply dq_trans; [|apply dq_fold_fut_complete]. apply dq_same; [reflexivity|intros x; now split|auto].
+Qed.
+
+Lemma dq_event_wait s t e : dq s (fst (event_wait s t e)).
+Proof.
+  unfold event_wait. destruct (e_set (events s e)); cbn [fst]; [apply dq_call_soon|].
+  unfold new_fut. cbn [fst]. eapply dq_trans; [|apply dq_suspend_on].
+  apply dq_same; [reflexivity|intros x; now split|auto].
+Qed.
+
+Lemma dq_event_unwait s e fo : dq s (event_unwait s e fo).
+Proof. destruct fo; cbn; [apply dq_same; [reflexivity|intros x; now split|auto]|apply dq_refl]. Qed.
+
+Lemma dq_timer_cancel s tm : dq s (timer_cancel s tm).
+Proof.
+  apply dq_same; [reflexivity|intros x; now split|]. intros c H. cbn. apply filter_In. split; [exact H|reflexivity].
+Qed.
+
+Lemma dq_tick s dt : dq s (tick s dt).
+Proof.
+  apply dq_same; [reflexivity|intros x; now split|]. intros c H. cbn. apply in_or_app. now left.
+Qed.
+
+Lemma dq_remove_first s h : (forall c, h <> HDeliver c) -> dq s (set_ready s (remove_first h (ready s))).
+Proof.
+  intros Hh. apply dq_same; [reflexivity|intros x; now split|]. intros c H. cbn.
+  apply in_remove_first_ne; [exact H|]. intros E. now apply (Hh c).
+Qed.
+
+Lemma dq_upd_group s g f : dq s (upd_group s g f).
+Proof. apply dq_same; [reflexivity|intros x; now split|auto]. Qed.
+
+Lemma TreeL_treq a b : TreeL a -> treq a b -> TreeL b.
+Proof.
+  intros T K. apply (TreeL_ext a b T (tq_nscope _ _ K)).
+  - intros x. now rewrite (tq_active _ _ K), (tq_parent _ _ K), (tq_children _ _ K), (tq_stasks _ _ K).
+  - intros t. apply (tq_cur _ _ K).
+Qed.
+
+(* restart without any assumption on where it starts: it either does nothing or delivers somewhere *)
+Lemma D_restart_any s x : TreeL s -> DInv s -> DInv (restart s x).
+Proof.
+  intros T I. unfold restart. generalize (nscope s) as fuel. intros fuel. revert x.
+  induction fuel as [|fu IH]; intros x; cbn [restart_from]; [exact I|].
+  destruct x as [c|]; [|exact I].
+  destruct (s_cancelled (scopes s c)).
+  - destruct (s_chandle (scopes s c)); [exact I|]. apply D_deliver_top; [exact T|apply I|]. intros c' _. apply I.
+  - destruct (s_shield (scopes s c)); [exact I|apply IH].
+Qed.
+
+(* ---------------- allocation of a scope ---------------- *)
+Lemma D_new_scope s d sh : Tree s -> DInv s -> DInv (fst (new_scope s d sh)).
+Proof.
+  intros T [Al Hd]. set (s' := fst (new_scope s d sh)). set (c0 := nscope s).
+  pose proof (tn_inactive s T) as Ic. fold c0 in Ic.
+  assert (Es : forall y, y <> c0 -> scopes s' y = scopes s y).
+  { intros y Hy. unfold s'. cbn. unfold upd. destruct (Nat.eqb_spec y (nscope s)); [contradiction|reflexivity]. }
+  assert (E0 : s_cancelled (scopes s' c0) = false /\ s_chandle (scopes s' c0) = false).
+  { unfold s', c0. cbn. unfold upd. rewrite Nat.eqb_refl. now split. }
+  split.
+  - intros A. destruct (Nat.eq_dec A c0) as [->|Hne]; [intros C; destruct E0; congruence|].
+    apply (alive_at_mono s s' A (Al A)); rewrite ?(Es A Hne); auto.
+    intros [t [D [x [Hc Hv]]]]. exists t. split; [exact D|]. exists x. split; [exact Hc|].
+    apply (vis_avoid s s' c0 A x (Tree_TreeL _ T) Ic); [|exact Hv|apply (tr_cur_act _ T t x Hc)].
+    intros y Hy. rewrite (Es y Hy). now repeat split.
+  - intros y. destruct (Nat.eq_dec y c0) as [->|Hne]; [destruct E0; congruence|].
+    rewrite (Es y Hne). apply Hd.
+Qed.
+
+(* ---------------- spawning ---------------- *)
+Lemma D_spawn s g sf :
+  Tree s -> alloc_g s g -> s_active (scopes s (g_scope (groups s g))) = true ->
+  DInv s -> DInv (fst (spawn_task s g sf)).
+Proof.
+  intros T Ag Ha I. rewrite spawn_task_eq. cbn [fst].
+  pose proof (D_new_scope s None false T I) as [A1 H1].
+  pose proof (Tree_new_scope s None false T) as T1.
+  set (s1 := fst (new_scope s None false)) in *. set (tn := ntask s). set (gs := g_scope (groups s g)).
+  set (s2 := spawn_struct s g sf).
+  pose proof (Tree_spawn s g sf T Ag Ha) as T2. fold s2 in T2.
+  assert (V2 : forall y, sc_view (scopes s2 y) = sc_view (scopes s1 y)).
+  { intros y. unfold s2, spawn_struct. cbn. unfold upd.
+    destruct (Nat.eqb_spec y (g_scope (groups s g))) as [->|Hy]; reflexivity. }
+  assert (Ek : forall x, x <> tn -> tasks s2 x = tasks s1 x).
+  { intros x Hx. unfold s2. now rewrite sp_task_other. }
+  assert (Ekt : k_cur (tasks s2 tn) = Some gs).
+  { unfold s2, spawn_struct, tn. cbn. unfold upd. now rewrite Nat.eqb_refl. }
+  assert (Same : forall y, s_shield (scopes s2 y) = s_shield (scopes s1 y) /\
+                           s_cancelled (scopes s2 y) = s_cancelled (scopes s1 y) /\
+                           s_parent (scopes s2 y) = s_parent (scopes s1 y)).
+  { intros y. pose proof (V2 y) as E. now rewrite (vw_shield _ _ E), (vw_cancelled _ _ E), (vw_parent _ _ E). }
+  assert (H2 : Handle s2).
+  { intros y. rewrite (vw_chandle _ _ (V2 y)). apply H1. }
+  assert (Act2 : s_active (scopes s2 gs) = true) by (apply (tr_cur_act _ T2 tn gs Ekt)).
+  assert (I3 : DInv (restart s2 (Some gs))).
+  { apply D_restart; [now apply Tree_TreeL|exact H2|exact Act2|].
+    intros A C Hh [t' R]. destruct (Nat.eq_dec t' tn) as [->|Hne].
+    - right. destruct R as [_ [x [Hc Hv]]]. rewrite Ekt in Hc. inversion Hc; subst x. exact Hv.
+    - left. rewrite (vw_chandle _ _ (V2 A)). apply A1.
+      + now rewrite <- (vw_cancelled _ _ (V2 A)).
+      + now rewrite <- (vw_host _ _ (V2 A)).
+      + destruct R as [D [x [Hc Hv]]]. rewrite (Ek t' Hne) in D, Hc. exists t'. split; [exact D|].
+        exists x. split; [exact Hc|]. apply (vis_view s1 s2 A x Same Hv). }
+  apply (DInv_dq _ _ I3). apply dq_call_soon.
+Qed.
+
+(* ---------------- the done-callback ---------------- *)
+Lemma D_td_struct s t g : DInv s -> DInv (td_struct s t g).
+Proof.
+  intros [Al Hd]. set (s' := td_struct s t g).
+  assert (V : forall y, sc_view (scopes s' y) = sc_view (scopes s y)).
+  { intros y. unfold s', td_struct. destruct (k_cur (tasks s t)) as [c|]; cbn; [|reflexivity].
+    unfold upd. destruct (Nat.eqb_spec y c); [subst|]; reflexivity. }
+  assert (Ek : forall x, tasks s' x = if Nat.eqb x t then tk_tdran true (tk_cur None (tasks s t)) else tasks s x).
+  { intros x. unfold s', td_struct. destruct (k_cur (tasks s t)); reflexivity. }
+  assert (Er : ready s' = ready s) by (unfold s', td_struct; destruct (k_cur (tasks s t)); reflexivity).
+  split.
+  - intros A. apply (alive_at_mono s s' A (Al A)).
+    + now rewrite (vw_cancelled _ _ (V A)).
+    + now rewrite (vw_host _ _ (V A)).
+    + intros [t' [D [x [Hc Hv]]]]. rewrite Ek in D, Hc. destruct (Nat.eqb_spec t' t); [discriminate|].
+      exists t'. split; [exact D|]. exists x. split; [exact Hc|]. apply (vis_view s s' A x); [|exact Hv].
+      intros y. pose proof (V y) as E. now rewrite (vw_shield _ _ E), (vw_cancelled _ _ E), (vw_parent _ _ E).
+    + now rewrite (vw_chandle _ _ (V A)).
+  - intros y. rewrite (vw_chandle _ _ (V y)), Er. apply Hd.
+Qed.
+
+Lemma D_td_tail s3 k g t : TreeL s3 -> DInv s3 -> DInv (td_tail s3 k g t).
+Proof.
+  intros T3 I3. unfold td_tail.
+  set (s4 := match g_fut (groups s3 g) with
+             | Some f => match g_tasks (groups s3 g) with [] => fut_complete s3 f (FRes 0) | _ :: _ => s3 end
+             | None => s3 end).
+  assert (K4 : TreeL s4 /\ DInv s4).
+  { unfold s4. destruct (g_fut (groups s3 g)); [|now split].
+    destruct (g_tasks (groups s3 g)); [|now split].
+    split; [eapply TreeL_kframe; [exact T3|apply kframe_fut_complete]|].
+    apply (DInv_dq _ _ I3). apply dq_fut_complete. }
+  clearbody s4. destruct K4 as [T4 I4].
+  assert (Kx : forall e, TreeL (upd_group s4 g (fun x => gr_excs (g_excs x ++ [(t, e)]) x)) /\
+                         DInv (upd_group s4 g (fun x => gr_excs (g_excs x ++ [(t, e)]) x))).
+  { intros e. split; [|apply (DInv_dq _ _ I4), dq_upd_group].
+    apply (TreeL_ext s4); [exact T4|reflexivity|intros x; now repeat split|intros x; reflexivity]. }
+  assert (Kc : forall a, TreeL a -> DInv a ->
+                 DInv (if eff_cancelled a (g_scope (groups a g)) then a else scope_cancel a (g_scope (groups a g)) false)).
+  { intros a Ta Ia. destruct (eff_cancelled a _); [exact Ia|now apply D_scope_cancel]. }
+  destruct (k_done k) as [[v|e|e]|].
+  - destruct (k_startfut k) as [f|]; [|exact I4].
+    destruct (f_st (futs s4 f)); try exact I4. apply (DInv_dq _ _ I4), dq_fut_complete.
+  - destruct (k_startfut k) as [f|].
+    + destruct (f_st (futs s4 f)).
+      * apply (DInv_dq _ _ I4), dq_fut_complete.
+      * destruct (is_cancel e); [now apply Kc|]. destruct (Kx e). now apply Kc.
+      * destruct (is_cancel e); [now apply Kc|]. destruct (Kx e). now apply Kc.
+      * destruct (is_cancel e); [exact I4|]. destruct (Kx e). now apply Kc.
+    + destruct (is_cancel e); [now apply Kc|]. destruct (Kx e). now apply Kc.
+  - destruct (k_startfut k) as [f|].
+    + destruct (f_st (futs s4 f)).
+      * apply (DInv_dq _ _ I4), dq_fut_complete.
+      * destruct (is_cancel e); [now apply Kc|]. destruct (Kx e). now apply Kc.
+      * destruct (is_cancel e); [now apply Kc|]. destruct (Kx e). now apply Kc.
+      * destruct (is_cancel e); [exact I4|]. destruct (Kx e). now apply Kc.
+    + destruct (is_cancel e); [now apply Kc|]. destruct (Kx e). now apply Kc.
+  - destruct (k_startfut k) as [f|]; [|exact I4].
+    destruct (f_st (futs s4 f)); try exact I4. apply (DInv_dq _ _ I4), dq_fut_complete.
+Qed.
+
+(* ---------------- a task finishes ---------------- *)
+Lemma D_finish s t o : DInv s -> DInv (finish_task s t o).
+Proof.
+  intros [Al Hd]. set (s' := finish_task s t o).
+  assert (Es : scopes s' = scopes s).
+  { unfold s', finish_task. destruct (k_group (tasks s t)); reflexivity. }
+  assert (Ek : forall x, x <> t -> tasks s' x = tasks s x).
+  { intros x Hx. unfold s', finish_task. cbn [tasks set_running].
+    destruct (k_group (tasks s t)); cbn; unfold upd; destruct (Nat.eqb_spec x t); try contradiction; reflexivity. }
+  assert (Ekt : k_done (tasks s' t) <> None).
+  { unfold s', finish_task. cbn [tasks set_running].
+    destruct (k_group (tasks s t)); cbn; unfold upd; rewrite Nat.eqb_refl; cbn; discriminate. }
+  assert (Er : forall c, In (HDeliver c) (ready s) -> In (HDeliver c) (ready s')).
+  { intros c H. unfold s', finish_task. cbn [ready set_running].
+    destruct (k_group (tasks s t)); cbn; [apply in_or_app; now left|exact H]. }
+  split.
+  - intros A. apply (alive_at_mono s s' A (Al A)); rewrite ?Es; auto.
+    intros [t' [D [x [Hc Hv]]]]. destruct (Nat.eq_dec t' t) as [->|Hne]; [contradiction|].
+    rewrite (Ek t' Hne) in D, Hc. exists t'. split; [exact D|]. exists x. split; [exact Hc|].
+    apply (vis_view s s' A x); [|exact Hv]. intros y. rewrite Es. now repeat split.
+  - intros y. rewrite Es. intros H. apply Er, Hd, H.
+Qed.
+
+(* ---------------- the shield setter ---------------- *)
+Lemma vis_unshield s c A x :
+  let s1 := upd_scope s c (sc_shield false) in
+  vis s1 A x -> vis s A x \/ (exists p, s_parent (scopes s c) = Some p /\ vis s1 A p).
+Proof.
+  intros s1 H. induction H as [|x p E1 E2 E3 H IH]; [left; apply vis_here|].
+  destruct (Nat.eq_dec x c) as [->|Hne].
+  - right. exists p. split; [|exact H]. unfold s1 in E3. cbn in E3. unfold upd in E3.
+    now rewrite Nat.eqb_refl in E3.
+  - assert (Ex : scopes s1 x = scopes s x).
+    { unfold s1. cbn. unfold upd. destruct (Nat.eqb_spec x c); [contradiction|reflexivity]. }
+    rewrite Ex in E1, E2, E3. destruct IH as [IH|IH]; [left; eapply vis_up; eauto|right; exact IH].
+Qed.
+
+Lemma D_set_shield s c (b : bool) : Tree s -> DInv s ->
+  DInv (if b then upd_scope s c (sc_shield true)
+        else restart (upd_scope s c (sc_shield false)) (s_parent (scopes (upd_scope s c (sc_shield false)) c))).
+Proof.
+  intros T [Al Hd]. pose proof (Tree_TreeL _ T) as TL.
+  destruct b.
+  - set (s1 := upd_scope s c (sc_shield true)).
+    assert (Es : forall y, y <> c -> scopes s1 y = scopes s y).
+    { intros y Hy. unfold s1. cbn. unfold upd. destruct (Nat.eqb_spec y c); [contradiction|reflexivity]. }
+    assert (Ec : scopes s1 c = sc_shield true (scopes s c)).
+    { unfold s1. cbn. unfold upd. now rewrite Nat.eqb_refl. }
+    split.
+    + intros A. apply (alive_at_mono s s1 A (Al A)).
+      * destruct (Nat.eq_dec A c) as [->|Hy]; [now rewrite Ec|now rewrite (Es A Hy)].
+      * destruct (Nat.eq_dec A c) as [->|Hy]; [now rewrite Ec|now rewrite (Es A Hy)].
+      * intros [t [D [x [Hc Hv]]]]. exists t. split; [exact D|]. exists x. split; [exact Hc|].
+        apply (vis_mono s s1 A x Hv). intros y p F1 F2 F3.
+        destruct (Nat.eq_dec y c) as [->|Hy]; [rewrite Ec in F1; discriminate|].
+        rewrite (Es y Hy) in *. now repeat split.
+      * destruct (Nat.eq_dec A c) as [->|Hy]; [now rewrite Ec|now rewrite (Es A Hy)].
+    + intros y. destruct (Nat.eq_dec y c) as [->|Hy]; [rewrite Ec|rewrite (Es y Hy)]; apply Hd.
+  - set (s1 := upd_scope s c (sc_shield false)).
+    assert (Es : forall y, y <> c -> scopes s1 y = scopes s y).
+    { intros y Hy. unfold s1. cbn. unfold upd. destruct (Nat.eqb_spec y c); [contradiction|reflexivity]. }
+    assert (Ec : scopes s1 c = sc_shield false (scopes s c)).
+    { unfold s1. cbn. unfold upd. now rewrite Nat.eqb_refl. }
+    assert (T1 : TreeL s1).
+    { apply (TreeL_ext s s1 TL eq_refl); [|intros t; reflexivity].
+      intros y. destruct (Nat.eq_dec y c) as [->|Hy]; [rewrite Ec|rewrite (Es y Hy)]; now repeat split. }
+    assert (H1 : Handle s1).
+    { intros y. destruct (Nat.eq_dec y c) as [->|Hy]; [rewrite Ec|rewrite (Es y Hy)]; apply Hd. }
+    assert (Vw : forall A, s_cancelled (scopes s1 A) = s_cancelled (scopes s A) /\
+                           s_host (scopes s1 A) = s_host (scopes s A) /\
+                           s_chandle (scopes s1 A) = s_chandle (scopes s A)).
+    { intros A. destruct (Nat.eq_dec A c) as [->|Hy]; [rewrite Ec|rewrite (Es A Hy)]; now repeat split. }
+    rewrite Ec. cbn [s_parent sc_shield].
+    destruct (s_active (scopes s c)) eqn:Ac.
+    + (* an active scope: new paths go through c and its parent *)
+      destruct (s_parent (scopes s c)) as [p|] eqn:Ep.
+      * apply D_restart; try assumption.
+        -- assert (Ap : s_active (scopes s p) = true) by apply (tr_par_act _ T c p Ac Ep).
+           destruct (Nat.eq_dec p c) as [Epc|Hy]; [rewrite Epc, Ec; cbn [s_active sc_shield]; now rewrite <- Epc|].
+           rewrite (Es p Hy). exact Ap.
+        -- intros A C Hh [t R]. destruct (Vw A) as [V1 [V2 V3]].
+           destruct R as [D [x [Hc Hv]]]. destruct (vis_unshield s c A x Hv) as [V|[p' [Ep' V]]].
+           ++ left. rewrite V3. apply Al; [now rewrite <- V1|now rewrite <- V2|].
+              exists t. split; [exact D|]. exists x. now split.
+           ++ right. rewrite Ep in Ep'. inversion Ep'; subst p'. exact V.
+      * unfold restart. destruct (nscope s1); cbn [restart_from]; (split; [|exact H1]).
+        all: intros A C Hh [t R]; destruct (Vw A) as [V1 [V2 V3]]; rewrite V3;
+          apply Al; [now rewrite <- V1|now rewrite <- V2|].
+        all: destruct R as [D [x [Hc Hv]]]; destruct (vis_unshield s c A x Hv) as [V|[p' [Ep' _]]];
+          [exists t; split; [exact D|]; exists x; now split|rewrite Ep in Ep'; discriminate].
+    + (* an inactive scope is on nobody's path *)
+      apply D_restart_any; [exact T1|]. split; [|exact H1].
+      intros A C Hh [t [D [x [Hc Hv]]]]. destruct (Vw A) as [V1 [V2 V3]]. rewrite V3.
+      apply Al; [now rewrite <- V1|now rewrite <- V2|].
+      exists t. split; [exact D|]. exists x. split; [exact Hc|].
+      apply (vis_avoid s s1 c A x TL Ac); [|exact Hv|apply (tr_cur_act _ T t x Hc)].
+      intros y Hy. rewrite (Es y Hy). now repeat split.
+Qed.
